@@ -62,7 +62,18 @@ func (V *Verifier) fnConstByKey(ex *Exec, key string) *Term {
 }
 
 func (V *Verifier) constArr(ex *Exec, s Sort, v *Term) *Term {
-	return bi("(as const "+string(s)+")", s, v)
+	if _, isInt := v.IntVal(); isInt || v == True || v == False {
+		return bi("(as const "+string(s)+")", s, v)
+	}
+	// non-value element (e.g. the empty string): fresh array, all entries v
+	key := "constarr:" + string(s) + ":" + v.String()
+	if c, ok := ex.constArrs[key]; ok {
+		return c
+	}
+	c := ex.D.Fresh("zeros", s)
+	ex.assume(Forall([]BVar{{"i!z", SInt}}, Eq(Select(c, BV("i!z", SInt)), v)))
+	ex.constArrs[key] = c
+	return c
 }
 
 func LoadVerifier(repo string, specFiles []string) (*Verifier, error) {
@@ -460,6 +471,7 @@ func (V *Verifier) NewExec(fn *ssa.Function, spec *FuncSpec) *Exec {
 		iterLoop: map[string]*ssa.BasicBlock{}, localName: map[string]*ssa.Alloc{},
 		freeVarVals: map[*ssa.FreeVar]Val{}, ifaceSrc: map[string]ifaceOrigin{}, ifacePayload: map[string]Val{},
 		usedSpecs: map[string]bool{}, usedSpecFns: map[string]bool{}, usedAx: map[string]bool{},
+		constArrs: map[string]*Term{},
 	}
 	if spec != nil {
 		ex.safety = len(spec.Safety) > 0
